@@ -180,6 +180,10 @@ func invokeModel(c *ssa.CallCommon) *model {
 		if m == "Write" {
 			return &model{writes: []int{0}}
 		}
+	case "encoding.BinaryUnmarshaler", "encoding.TextUnmarshaler":
+		return &model{writes: []int{0}} // restores the receiver's state from the (read-only) argument
+	case "encoding.BinaryMarshaler", "encoding.TextMarshaler":
+		return fresh
 	case "error":
 		return pure
 	case "fmt.Stringer":
@@ -265,7 +269,13 @@ func (st *fstate) call(c ssa.CallInstruction) {
 				return set{k: true}
 			}
 			for k, w := range sum.Wr {
-				st.write(mapObj(k), true, &Witness{Fn: st.fn, Pos: in.Pos(), What: "call " + callee.Name(), Via: w})
+				// a callee's write to its parameter region may reach anything reachable from the argument; a write to
+				// a package-level variable is a write to that variable only (what it points to is labelled separately)
+				if strings.HasPrefix(k, "P") {
+					st.write(mapObj(k), true, &Witness{Fn: st.fn, Pos: in.Pos(), What: "call " + callee.Name(), Via: w})
+				} else {
+					st.write(set{k: true}, false, &Witness{Fn: st.fn, Pos: in.Pos(), What: "call " + callee.Name(), Via: w})
+				}
 			}
 			for i, r := range sum.Ret {
 				s := set{}
